@@ -30,11 +30,11 @@ func (w *World) All() []Obj {
 	add("INITVoteproof/draw", true, w.INITVoteproofDraw(w.Point()))
 	add("ACCEPTVoteproof", true, w.ACCEPTVoteproof(isaac.NewACCEPTBallotFact(w.Point(), w.Hash(), w.Hash(), nil)))
 	add("ACCEPTVoteproof/draw", true, w.ACCEPTVoteproofDraw(w.Point()))
-	ievp, _, _ := w.INITExpelVoteproof(w.Point(), 1+w.R.Intn(2))
+	ievp, _, _ := w.INITExpelVoteproof(w.PointPos(), 1+w.R.Intn(2))
 	add("INITExpelVoteproof", true, ievp)
-	add("ACCEPTExpelVoteproof", true, w.ACCEPTExpelVoteproof(w.Point(), 1+w.R.Intn(2)))
-	add("INITStuckVoteproof", true, w.INITStuckVoteproof(w.Point(), 1+w.R.Intn(2)))
-	add("ACCEPTStuckVoteproof", true, w.ACCEPTStuckVoteproof(w.Point(), 1+w.R.Intn(2)))
+	add("ACCEPTExpelVoteproof", true, w.ACCEPTExpelVoteproof(w.PointPos(), 1+w.R.Intn(2)))
+	add("INITStuckVoteproof", true, w.INITStuckVoteproof(w.PointPos(), 1+w.R.Intn(2)))
+	add("ACCEPTStuckVoteproof", true, w.ACCEPTStuckVoteproof(w.PointPos(), 1+w.R.Intn(2)))
 
 	// ballots
 	add("INITBallot/accept-vp", true, w.INITBallotOnAccept(false, false))
@@ -53,7 +53,7 @@ func (w *World) All() []Obj {
 	add("ProposalSignFact", true, w.ProposalSignFact())
 
 	// operations
-	_, exps, _ := w.Expels(w.Height(), 1)
+	_, exps, _ := w.Expels(w.HeightPos(), 1)
 	add("SuffrageExpelOperation", true, exps[0])
 	add("SuffrageCandidate", true, w.SuffrageCandidate())
 	add("SuffrageJoin", true, w.SuffrageJoin())
@@ -61,6 +61,11 @@ func (w *World) All() []Obj {
 	add("SuffrageGenesisJoin", true, w.SuffrageGenesisJoin())
 	add("NetworkPolicyOp", true, w.NetworkPolicyOp())
 	add("GenesisNetworkPolicyOp", true, w.GenesisNetworkPolicyOp())
+
+	// operation facts on their own
+	for _, o := range []interface{ Fact() base.Fact }{exps[0], w.SuffrageCandidate(), w.SuffrageJoin(), w.SuffrageDisjoin(), w.SuffrageGenesisJoin(), w.NetworkPolicyOp(), w.GenesisNetworkPolicyOp()} {
+		os = append(os, Obj{Kind: "OperationFact", V: o.Fact(), NID: true}) // (the genesis join fact checks its token against the network id)
+	}
 
 	// states / manifests / block maps / proofs
 	add("BaseState/suffrage", false, w.State(0))
@@ -71,6 +76,7 @@ func (w *World) All() []Obj {
 	add("SuffrageProof", true, w.SuffrageProof())
 
 	os = append(os, w.others()...)
+	os = append(os, w.boundary()...)
 	return os
 }
 
